@@ -243,8 +243,55 @@ fn chain_source(s: &StructDef, ops: &[Op], unwrap: &str) -> String {
     o
 }
 
+/// "resize after load" with other calls in between: sizes, values into stack i, 0-3 unrelated
+/// calls, then an individual or global resize - must not compile whatever came in between
+fn gen_resize_after_load(rng: &mut Rng, s: &StructDef) -> Vec<Op> {
+    let n = s.stacks.len();
+    let i = rng.below(n);
+    let mut ops = vec![Op::MaxAll(2 + rng.below(7))];
+    if rng.chance(1, 3) {
+        ops.push(Op::MaxOne(i, 3 + rng.below(5)));
+    }
+    let mut program = rng.chance(1, 3);
+    if program {
+        ops.push(if rng.chance(1, 2) { Op::Program(rng.below(3)) } else { Op::NoProgram });
+    }
+    ops.push(Op::Values(i, 1 + rng.below(2)));
+    let mut steps = false;
+    for _ in 0..rng.below(4) {
+        match rng.below(6) {
+            0 | 1 if !program => {
+                ops.push(if rng.chance(2, 3) { Op::Program(rng.below(3)) } else { Op::NoProgram });
+                program = true;
+            }
+            2 if !steps => {
+                ops.push(Op::Steps(rng.below(30)));
+                steps = true;
+            }
+            3 if n > 1 => {
+                let j = (i + 1 + rng.below(n - 1)) % n;
+                ops.push(Op::MaxOne(j, 4 + rng.below(4)));
+            }
+            4 if n > 1 => {
+                let j = (i + 1 + rng.below(n - 1)) % n;
+                ops.push(Op::Values(j, rng.below(2)));
+            }
+            5 => ops.push(Op::Values(i, 0)),
+            _ => {}
+        }
+    }
+    ops.push(if rng.chance(3, 4) { Op::MaxOne(i, rng.below(6)) } else { Op::MaxAll(rng.below(9)) });
+    if rng.chance(1, 3) {
+        ops.push(Op::Build);
+    }
+    ops
+}
+
 /// random walk over builder calls, biased to produce every class
 fn gen_probe_chain(rng: &mut Rng, s: &StructDef) -> Vec<Op> {
+    if rng.chance(1, 4) {
+        return gen_resize_after_load(rng, s);
+    }
     let n = s.stacks.len();
     let mut ops = vec![];
     let len = 2 + rng.below(7);
